@@ -22,7 +22,7 @@ def member_lines(m, wd, tag):
             "dump 0 out full", "free 0"]
 
 
-def run_groups(V, groups, wd, per_batch=8, variant="rel", timeout=300, workers=12, env=None, pipeline=False, guidetree=False):
+def run_groups(V, groups, wd, per_batch=8, variant="rel", timeout=300, workers=12, env=None, pipeline=False, guidetree=False, heap="3g"):
     """groups: list of dict(gid, rel, prop, members=[...], [key], [nontrivial]); fills Verdict V"""
     batches = [groups[i:i + per_batch] for i in range(0, len(groups), per_batch)]
 
@@ -36,7 +36,7 @@ def run_groups(V, groups, wd, per_batch=8, variant="rel", timeout=300, workers=1
                 lines += member_lines(m, bwd, "g%d_m%d" % (gi, mi))
         tp, rc, err = kv.run_kvdrive("\n".join(lines) + "\n", bwd, "t", variant=variant, timeout=timeout, env=env)
         try:
-            res = kv.run_tlc("RelateTrace", "RelateTrace.cfg", bwd, trace=tp, timeout=900, heap="3g")
+            res = kv.run_tlc("RelateTrace", "RelateTrace.cfg", bwd, trace=tp, timeout=900, heap=heap)
             res.pipeline = kv.run_tlc("KalignTrace", "KalignTrace.cfg", bwd, trace=tp, timeout=900, heap="3g", name="pipe") if pipeline else None
             res.guidetree = kv.run_tlc("GuideTreeTrace", "GuideTreeTrace.cfg", bwd, trace=tp, timeout=900, heap="3g", name="gt") if guidetree else None
         except kv.Broken as e:
